@@ -558,8 +558,45 @@ func tagsOf(k *Conc, c *ACase) []string {
 	return t
 }
 
-// devWhy names the structural trigger of a disagreement (stable across seeds): the first rule that applies.
+// devWhy names the structural trigger of a disagreement (stable across seeds): the first rule that applies.  The
+// triggers of defects that are still open come first; the triggers of repaired defects are kept (a regression shows up
+// under its old signature) but only name a disagreement that no open defect explains.
 func devWhy(k *Conc, c *ACase) string {
+	if w := logOpenWhy(k, c); w != "" {
+		return w
+	}
+	if w := logFixedWhy(k, c); w != "" {
+		return w
+	}
+	return logUnattributed(c)
+}
+
+// logOpenWhy: triggers of the open known findings.
+func logOpenWhy(k *Conc, c *ACase) string {
+	q := &c.Q
+	for i, st := range q.P {
+		if st.K == "json" && i+1 < len(q.P) && q.P[i+1].K == "lf" && (q.P[i+1].Op == "!=" || q.P[i+1].Op == "!~") {
+			return "parser:json-keyword-read-as-label-filter"
+		}
+	}
+	// a matcher that an absent label satisfies
+	for _, m := range q.M {
+		absentOK := (m.Op == "!=" && m.Val != "") || (m.Op == "=" && m.Val == "") || (m.Op == "=~" && m.Val == "R_any") ||
+			(m.Op == "!~" && m.Val != "R_any")
+		if !absentOK {
+			continue
+		}
+		for _, e := range c.DB {
+			if e.S[m.Name] == "" {
+				return "selector:label-absent-from-stream|" + m.Op
+			}
+		}
+	}
+	return ""
+}
+
+// logFixedWhy: triggers of repaired defects (see known_findings.json "fixed").
+func logFixedWhy(k *Conc, c *ACase) string {
 	q := &c.Q
 	if len(q.M) >= 9 {
 		return "selector:9+matchers"
@@ -571,11 +608,6 @@ func devWhy(k *Conc, c *ACase) string {
 		}
 		if (st.K == "drop" || st.K == "dropv") && firstDrop < 0 {
 			firstDrop = i
-		}
-	}
-	for i, st := range q.P {
-		if st.K == "json" && i+1 < len(q.P) && q.P[i+1].K == "lf" && (q.P[i+1].Op == "!=" || q.P[i+1].Op == "!~") {
-			return "parser:json-keyword-read-as-label-filter"
 		}
 	}
 	// like(samples.string ..) in the SELECT block created by the labels join
@@ -632,19 +664,6 @@ func devWhy(k *Conc, c *ACase) string {
 			}
 		}
 	}
-	// a matcher that an absent label satisfies
-	for _, m := range q.M {
-		absentOK := (m.Op == "!=" && m.Val != "") || (m.Op == "=" && m.Val == "") || (m.Op == "=~" && m.Val == "R_any") ||
-			(m.Op == "!~" && m.Val != "R_any")
-		if !absentOK {
-			continue
-		}
-		for _, e := range c.DB {
-			if e.S[m.Name] == "" {
-				return "selector:label-absent-from-stream|" + m.Op
-			}
-		}
-	}
 	// concrete triggers: hostile characters in line filter operands
 	for _, st := range q.P {
 		if st.K == "lf" {
@@ -660,7 +679,12 @@ func devWhy(k *Conc, c *ACase) string {
 			}
 		}
 	}
-	// no known trigger: the constructs of the query (sorted, without repetition)
+	return ""
+}
+
+// logUnattributed: no known trigger: the constructs of the query (sorted, without repetition)
+func logUnattributed(c *ACase) string {
+	q := &c.Q
 	set := map[string]bool{}
 	for _, st := range q.P {
 		set[st.K+st.Op] = true
@@ -682,21 +706,8 @@ func devWhy(k *Conc, c *ACase) string {
 	return "unattributed:" + strings.Join(ks, ",")
 }
 
+// likeHostile: the LIKE escaping of line filter operands is repaired; no modelled difference is masked any more.
 func likeHostile(k *Conc, c *ACase) bool {
-	for _, st := range c.Q.P {
-		if st.K != "lf" {
-			continue
-		}
-		var operand string
-		if st.Op == "|=" || st.Op == "!=" {
-			operand = k.Feat[st.Arg].S
-		} else if strings.HasPrefix(st.Arg, "L_") {
-			operand = k.Feat[map[string]string{"L_f1": "f1", "L_f2": "f2"}[st.Arg]].S
-		}
-		if strings.HasSuffix(operand, "'") || strings.Contains(operand, `\`) {
-			return true
-		}
-	}
 	return false
 }
 
